@@ -1,4 +1,5 @@
 import FtdcVerif.Lemmas.Collector
+import FtdcVerif.Lemmas.EndToEnd
 /-!
 # C07 — collectors are faithful, bounded logs under every operation history
 
@@ -286,6 +287,191 @@ theorem streaming_dynamic_faithful_log (n : Nat) (ds : List BDoc) :
       exact ih _ _ h1 h2
   exact this ds (StreamingDynamic.new n) [] rfl
     (by simp [writtenRows, StreamingDynamic.new, Streaming.new, Better.samples])
+
+/-! ### ... and everything in the writer is decodable -/
+
+/-- documents the byte-level round trip (C01) applies to -/
+def DocOK (d : BDoc) : Prop :=
+  WFDoc d ∧ (serDoc d).length < 2 ^ 31 ∧ NoTs d ∧ (extractDoc d).length < 2 ^ 32
+
+/-- a chunk the reader decodes back to exactly its rows -/
+def ChunkOK : OutDoc → Prop
+  | .metaDoc _ _ => True
+  | .chunk _ ref first rows =>
+    DocOK ref ∧ first = vals ref ∧ (∀ r ∈ rows, r.length = first.length) ∧ rows.length < 2 ^ 32
+
+/-- **a well-formed chunk decodes to its samples** -/
+theorem chunkOK_decodes (id : Ts) (ref : BDoc) (first : Row) (rows : List Row)
+    (h : ChunkOK (.chunk id ref first rows)) :
+    ∃ c, decodePayload (OutDoc.chunk id ref first rows).payload = .ok c ∧
+      c.rows = (OutDoc.chunk id ref first rows).samples := by
+  obtain ⟨⟨hw, hl, hts, hnm⟩, hf, hr, hn⟩ := h
+  subst hf
+  have hnm' : (vals ref).length < 2 ^ 32 := by simpa [vals] using hnm
+  obtain ⟨c, h1, _, h3⟩ := decode_payload ref rows hw hl hts hr hnm' hn (by
+    have := Nat.mul_lt_mul'' hnm' hn
+    have e : (2 : Nat) ^ 32 * 2 ^ 32 = 2 ^ 64 := by decide
+    omega)
+  exact ⟨c, h1, h3⟩
+
+/-- what the inner collector of a streaming collector satisfies when only `DocOK` documents are added -/
+def BetterOK (n : Nat) (b : Better) : Prop :=
+  b.Inv ∧ b.maxDeltas = n ∧ ∀ r, b.ref = some r → DocOK r ∧ b.first = vals r
+
+theorem add_keeps_ref (b : Better) (d : BDoc) (r0 : BDoc) (hb : b.ref = some r0) :
+    (b.add d).1.ref = some r0 ∧ (b.add d).1.first = b.first ∧ (b.add d).1.maxDeltas = b.maxDeltas := by
+  unfold Better.add
+  simp only [hb]
+  by_cases h1 : b.rows.length ≥ b.maxDeltas
+  · simp [h1, hb]
+  · simp only [h1, if_false]
+    by_cases h2 : (extractDoc d).length ≠ b.last.length
+    · simp [h2, hb]
+    · simp only [h2, if_false]
+      by_cases h3 : (extractDoc d).map (·.2) ≠ b.last.map (·.2)
+      · simp [h3, hb]
+      · simp [h3, hb]
+
+theorem betterOK_add (n : Nat) (b : Better) (d : BDoc) (hd : DocOK d) (h : BetterOK n b) : BetterOK n (b.add d).1 := by
+  obtain ⟨hi, hm, hr⟩ := h
+  cases hb : b.ref with
+  | none =>
+    refine ⟨Better.add_inv b d hi, ?_, ?_⟩
+    · unfold Better.add; simp [hb, hm]
+    · intro r hre
+      unfold Better.add at hre ⊢
+      simp only [hb] at hre ⊢
+      simp only [Option.some.injEq] at hre
+      subst hre
+      exact ⟨hd, by simp [vals]⟩
+  | some r0 =>
+    obtain ⟨k1, k2, k3⟩ := add_keeps_ref b d r0 hb
+    refine ⟨Better.add_inv b d hi, by rw [k3]; exact hm, ?_⟩
+    intro r hre
+    rw [k1] at hre
+    simp only [Option.some.injEq] at hre
+    subst hre
+    rw [k2]
+    exact hr r0 hb
+
+theorem betterOK_resolve (n : Nat) (hn : n < 2 ^ 32) (b : Better) (h : BetterOK n b) (docs : List OutDoc)
+    (hres : b.resolve = some docs) : ∀ o ∈ docs, ChunkOK o := by
+  obtain ⟨hi, hm, hr⟩ := h
+  unfold Better.resolve at hres
+  cases hb : b.ref with
+  | none => simp [hb] at hres
+  | some r =>
+    obtain ⟨hdoc, hfirst⟩ := hr r hb
+    have hinv := hi.2.2 (by simp [hb])
+    have hck : ChunkOK (.chunk b.startedAt r b.first b.rows) := by
+      refine ⟨hdoc, hfirst, ?_, ?_⟩
+      · intro row hrow; rw [hinv.2 row hrow, hinv.1]
+      · have := hi.2.1; omega
+    simp only [hb] at hres
+    cases hmd : b.metadata with
+    | none => simp [hmd] at hres; subst hres; intro o ho; simp at ho; subst ho; exact hck
+    | some md =>
+      simp [hmd] at hres; subst hres
+      intro o ho
+      simp at ho
+      rcases ho with rfl | rfl
+      · trivial
+      · exact hck
+
+/-- every document in the complete writes of a writer -/
+def loggedDocs (w : Writer) : List OutDoc :=
+  (w.log.map fun e => match e with
+    | WEntry.full docs => docs
+    | WEntry.partialWrite _ _ => []).flatten
+
+/-- invariant: the writer never fails, everything logged is a decodable chunk, the inner collector is well-formed -/
+def SOK (n : Nat) (c : Streaming) : Prop :=
+  c.out.script = [] ∧ (∀ o ∈ loggedDocs c.out, ChunkOK o) ∧ BetterOK n c.inner
+
+theorem sok_flush (n : Nat) (hn : n < 2 ^ 32) (c : Streaming) (h : SOK n c) : SOK n (c.flush).1 := by
+  obtain ⟨hs, hl, hb⟩ := h
+  unfold Streaming.flush
+  by_cases h0 : c.info.2 = 0
+  · simp [h0]; exact ⟨hs, hl, hb⟩
+  · simp only [h0, if_false]
+    cases hres : c.resolve with
+    | none => exact ⟨hs, hl, hb⟩
+    | some docs =>
+      simp only [Writer.write, hs, if_true]
+      refine ⟨by simp only [Streaming.reset]; try exact hs, ?_, ?_⟩
+      · intro o ho
+        simp only [Streaming.reset, loggedDocs, List.map_append, List.flatten_append, List.map_cons, List.map_nil,
+          List.flatten_cons, List.flatten_nil, List.append_nil, List.mem_append] at ho
+        rcases ho with ho | ho
+        · exact hl o ho
+        · exact betterOK_resolve n hn c.inner hb docs hres o ho
+      · simp only [Streaming.reset]
+        exact ⟨Better.reset_inv _, hb.2.1, by intro r hr; simp [Better.reset] at hr⟩
+
+theorem sok_add (n : Nat) (hn : n < 2 ^ 32) (c : Streaming) (d : BDoc) (hd : DocOK d) (h : SOK n c) :
+    SOK n (c.add d).1 := by
+  have key : ∀ c1 : Streaming, SOK n c1 →
+      SOK n (if (c1.inner.add d).2 = .ok then { c1 with inner := (c1.inner.add d).1, count := c1.count + 1 } else c1) := by
+    intro c1 h1
+    split
+    · exact ⟨h1.1, h1.2.1, betterOK_add n c1.inner d hd h1.2.2⟩
+    · exact h1
+  unfold Streaming.add
+  by_cases hfull : c.count ≥ c.maxSamples
+  · simp only [hfull, if_true]
+    have hf := sok_flush n hn c h
+    by_cases hok : (c.flush).2 = true
+    · simp only [hok, Bool.not_true, Bool.false_eq_true, if_false]
+      have := key (c.flush).1 hf
+      by_cases hacc : ((c.flush).1.inner.add d).2 = .ok <;> simp_all
+    · have hok' : (c.flush).2 = false := by simpa using hok
+      simp [hok']; exact hf
+  · simp only [hfull, if_false, Bool.not_true, Bool.false_eq_true]
+    have := key c h
+    by_cases hacc : (c.inner.add d).2 = .ok <;> simp_all
+
+/-- **Everything a streaming collector has handed to its writer is decodable, and what it decodes to,
+followed by the pending samples, is exactly the accepted samples — once each, in order**: for every
+sequence of `Add`s of well-formed documents (any schemas, rejected ones included) over a writer that
+accepts every write. -/
+theorem streaming_writer_decodes_to_accepted (n : Nat) (hn : n < 2 ^ 32) (ds : List BDoc) (hds : ∀ d ∈ ds, DocOK d) :
+    let r := ds.foldl addLog (Streaming.new n, [])
+    (∀ o ∈ loggedDocs r.1.out, ∃ c, decodePayload o.payload = .ok c ∧ c.rows = o.samples ∨ o.samples = []) ∧
+    ((loggedDocs r.1.out).map OutDoc.samples).flatten ++ r.1.inner.samples =
+      r.2.map fun x => (extractDoc x).map (·.1) := by
+  have hfl := streaming_faithful_log n ds
+  have hrows : ∀ w : Writer, ((loggedDocs w).map OutDoc.samples).flatten = writtenRows w := by
+    intro w
+    unfold loggedDocs writtenRows
+    induction w.log with
+    | nil => rfl
+    | cons e l ih =>
+      simp only [List.map_cons, List.flatten_cons, List.map_append, List.flatten_append, ih]
+      cases e <;> simp
+  have hsok : ∀ (ds : List BDoc), (∀ d ∈ ds, DocOK d) → ∀ (c : Streaming) (acc : List BDoc), SOK n c →
+      SOK n (ds.foldl addLog (c, acc)).1 := by
+    intro ds
+    induction ds with
+    | nil => intro _ c acc h; exact h
+    | cons d ds ih =>
+      intro hd c acc h
+      simp only [List.foldl_cons]
+      have e : addLog (c, acc) d = ((c.add d).1, (addLog (c, acc) d).2) := rfl
+      rw [e]
+      exact ih (fun x hx => hd x (List.mem_cons_of_mem _ hx)) _ _ (sok_add n hn c d (hd d (List.mem_cons_self ..)) h)
+  have h0 : SOK n (Streaming.new n) :=
+    ⟨rfl, by intro o ho; simp [loggedDocs, Streaming.new] at ho,
+      ⟨by simp [Streaming.new, Better.Inv], rfl, by intro r hr; simp [Streaming.new] at hr⟩⟩
+  have hfin := hsok ds hds (Streaming.new n) [] h0
+  refine ⟨?_, ?_⟩
+  · intro o ho
+    have hck := hfin.2.1 o ho
+    cases o with
+    | metaDoc id doc => exact ⟨default, Or.inr rfl⟩
+    | chunk id ref first rows =>
+      obtain ⟨c, h1, h2⟩ := chunkOK_decodes id ref first rows hck
+      exact ⟨c, Or.inl ⟨h1, h2⟩⟩
+  · rw [hrows]; exact hfl
 
 /-! non-vacuity: a concrete history -/
 example : (({ maxDeltas := 1 } : Better).run
